@@ -197,8 +197,11 @@ def evaluate(unit, prop, res, modules=None, arith_prop='C20', extra_props_for_un
     def relevant_module(m):
         return modules is None or m in modules
 
+    soft = []
+
     def analyse(out):
         viol, unl = [], []
+        del soft[:]
         for e in out['errors']:
             if e['twin'] or not relevant_module(e['module']):
                 continue
@@ -206,6 +209,10 @@ def evaluate(unit, prop, res, modules=None, arith_prop='C20', extra_props_for_un
                 unl.append(e)
             elif prop in e['props']:
                 viol.append(e)
+            elif (prop + '?') in e['props']:
+                # soft label: this clause belongs to another property; it counts for `prop` only if the
+                # concrete search of the real code finds an input violating `prop`
+                soft.append(e)
             elif prop == arith_prop and e['kind'] == 'arith':
                 viol.append(e)
             elif e['kind'] == 'arith':
@@ -244,7 +251,7 @@ def evaluate(unit, prop, res, modules=None, arith_prop='C20', extra_props_for_un
         res.functions.append(dict(name='%s::%s' % (f['module'], f['orig']), file='%s:%d' % (f['file'], f['line']), track='verus'))
     nclauses = 0
     for c in out['clauses']:
-        if not relevant_module(c['module']) or prop not in c['props']:
+        if not relevant_module(c['module']) or (prop not in c['props'] and (prop + '?') not in c['props']):
             continue
         nclauses += 1
         fn = next((f for f in out['functions'] if f['name'] == c['fn'] and f['module'] == c['module']), None)
@@ -269,6 +276,10 @@ def evaluate(unit, prop, res, modules=None, arith_prop='C20', extra_props_for_un
     for e in unl:
         res.undecide('%s: %s::%s: %s [%s] %s' % (unit.name, e['module'], e['fn'], e['message'], e['kind'], e['clause'][:160]))
     violations = []
+    for e in soft:
+        violations.append(dict(obligation='%s::%s: %s' % (e['module'], e['fn'], e['label_text'] or e['message']), unit=unit.name,
+                               message=e['message'], kind=e['kind'], clause=e['clause'], rendered=e['rendered'],
+                               repo_file=e['repo_file'], repo_line=e['repo_line'], backend='verus/z3', soft=True))
     for e in viol:
         violations.append(dict(obligation='%s::%s: %s' % (e['module'], e['fn'], e['label_text'] or e['message']), unit=unit.name,
                                message=e['message'], kind=e['kind'], clause=e['clause'], rendered=e['rendered'],
